@@ -80,7 +80,15 @@ func describe(rf *replayFile) {
 	n := 0
 	for _, d := range rf.Decisions {
 		if d.Kind == 0 && d.Step > 0 && n < 12 {
-			fmt.Printf("c14:     step %d: switch to task %d, preempting at %s\n", d.Step, d.Task, d.Src)
+			who := fmt.Sprintf("task %d", d.Task)
+			if int(d.Task) >= len(rows) {
+				who = fmt.Sprintf("a goroutine the library started (task slot %d)", d.Task)
+			}
+			fmt.Printf("c14:     step %d: switch to %s, preempting at %s\n", d.Step, who, d.Src)
+			n++
+		}
+		if d.Kind == 3 && n < 12 {
+			fmt.Printf("c14:     step %d: the select entered by task slot %d tries its case number %d first\n", d.Step, d.Task, d.V)
 			n++
 		}
 	}
